@@ -137,11 +137,12 @@ type Client struct {
 	getSet map[string]int
 	// DeletedSeen: rids for which the client has received a delete event
 	DeletedSeen map[string]bool
+	DeletedSeq  map[string]uint64 // ... and when
 }
 
 func (s *Sim) newClient() *Client {
 	c := &Client{s: s, Idx: len(s.Clients), State: "new", Proto: protoLegacy, Reqs: map[uint64]*CReq{},
-		F3rids: map[string]bool{}, directSince: map[string]int{}, UnsubReasons: map[string]string{}, ErrSeen: map[string]bool{}, ivFail: map[string]string{}, getSet: map[string]int{}, DeletedSeen: map[string]bool{}, Direct: map[string]int{}, Fuzzy: map[string]bool{}, Cache: map[string]*CRes{}, Revoked: map[string]int{}, CIdx: -1}
+		F3rids: map[string]bool{}, directSince: map[string]int{}, UnsubReasons: map[string]string{}, ErrSeen: map[string]bool{}, ivFail: map[string]string{}, getSet: map[string]int{}, DeletedSeen: map[string]bool{}, DeletedSeq: map[string]uint64{}, Direct: map[string]int{}, Fuzzy: map[string]bool{}, Cache: map[string]*CRes{}, Revoked: map[string]int{}, CIdx: -1}
 	c.Name = fmt.Sprintf("k%d", c.Idx)
 	s.Clients = append(s.Clients, c)
 	return c
@@ -443,7 +444,7 @@ func (c *Client) store(rid string, r *CRes, f *Frame) {
 		c.closeInterval(old, "resent")
 	}
 	if c.DeletedSeen[rid] {
-		if _, v := c.s.W.lookup(c.expandCID(rid)); v != nil && !v.Deleted && c.s.loadedAnew(v) {
+		if _, v := c.s.W.lookup(c.expandCID(rid)); v != nil && !v.Deleted && c.s.loadedAnew(v, c.DeletedSeq[rid]) {
 			// the delete event came from a not-found answer to a reset re-fetch or
 			// query request, the resource is still there: loaded anew, it lives again
 			delete(c.DeletedSeen, rid)
@@ -910,6 +911,7 @@ func (c *Client) onEvent(f *Frame) {
 	case "delete":
 		held.Deleted = true
 		c.DeletedSeen[rid] = true
+		c.DeletedSeq[rid] = f.Seq
 		c.closeInterval(held, "delete")
 	}
 	c.gc()
